@@ -26,10 +26,12 @@ pub(super) const KEY_NOT_WOKEN: &str = "c18-driver-not-woken";
 /// end-to-end form: an operation of the peer stays parked on a quiescent connection while the frames that
 /// would complete it sit queued behind a sleeping driver
 pub(super) const KEY_E2E_QUEUED: &str = "c18-lost-wakeup-frames-queued-driver-asleep";
-/// stream credit was freed but no MAX_STREAMS was queued, by something else than the recorded
+/// stream credit was freed but no MAX_STREAMS was queued, by something else than
 /// `RecvStream::stop` on a stream with known final size
 pub(super) const KEY_CREDIT_NOT_ANNOUNCED: &str = "c18-stream-credit-not-announced";
-/// the recorded finding (known_findings.txt): proto `RecvStream::stop` on a stream whose final size is known
+/// the same when the freeing call was proto `RecvStream::stop` (or the drop of an unread `RecvStream`) on a stream
+/// whose final size is known: the call frees the stream itself and must queue MAX_STREAMS itself (a repaired defect,
+/// known_findings.txt `fixed:`; the key is an ordinary violation and names the call site)
 pub(super) const KEY_KNOWN_STOP: &str = "c18-stream-credit-announced-only-after-next-packet";
 
 #[derive(Clone, Debug, Default)]
